@@ -15,12 +15,14 @@ func init() {
 			ID: "C05", Title: "Loc-RIB mirrors the accepted paths of each Adj-RIB-In", Level: "other",
 			Technique:   "def-use provenance on the typed AST (only post-policy paths cross the Adj-RIB-In boundary) + must-pass-through on go/cfg (replaced/removed paths are withdrawn on every exit)",
 			DesignRef:   "DESIGN.md §4 C05",
-			Decided:     "(1) every path handed to a RouteTableClient by package adjRIBIn (AddPath, AddPathInitialDump, RemovePath, ReplacePath) is result 0 of the import policy chain's Process — necessary because clients remove by full attribute comparison and policies rewrite attributes; (2) in addPath every exit passes removePathsFromClients for the paths the announcement replaced (all paths of the prefix, or the same-path-identifier ones with add-path receive), which are exactly what the table operation returned/removed; (3) in removePath every path removed from the table is handed to removePathsFromClients on every exit; Flush removes through removePath; (4) Unregister withdraws through the policy, hidden paths excluded; (5) the eBGP default LOCAL_PREF is applied before the policy runs.",
+			Decided:     "(1) every path handed to a RouteTableClient by package adjRIBIn (AddPath, AddPathInitialDump, RemovePath, ReplacePath) is result 0 of the import policy chain's Process — necessary because clients remove by full attribute comparison and policies rewrite attributes; (2) in addPath every exit passes removePathsFromClients for the paths the announcement replaced (all paths of the prefix, or the same-path-identifier ones with add-path receive), which are exactly what the table operation returned/removed; (3) in removePath every path removed from the table is handed to removePathsFromClients on every exit; Flush removes through removePath; (0) the identity relation that finds the path to withdraw reads every field on both operands, and path identifiers are opaque: compared only with each other, never with a constant (identifier 0 is a path like any other); (4) Unregister withdraws through the policy, hidden paths excluded; (5) the eBGP default LOCAL_PREF is applied before the policy runs.",
 			NotDecided:  "equality of the Loc-RIB contribution with the stored eligible announcements at every quiescent point over all histories (history-quantified); what the Loc-RIB does with the calls (C02/C04).",
 			TrustedBase: stdTrusted,
 		},
 		Run: runC05,
 		Controls: []Control{
+			{Name: "identifier-zero-means-none", File: "routingtable/adjRIBIn/adj_rib_in.go", Old: "\t\tif a.sessionAttrs.AddPathRX {\n\t\t\tif p != nil && path.BGPPath.PathIdentifier != p.BGPPath.PathIdentifier {", New: "\t\tif a.sessionAttrs.AddPathRX && p != nil && p.BGPPath.PathIdentifier != 0 {\n\t\t\tif p != nil && path.BGPPath.PathIdentifier != p.BGPPath.PathIdentifier {", Expect: "path-identifier-is-opaque"},
+			{Name: "source-compared-with-itself", File: "route/bgp_path.go", Old: "\tif b.Source.Compare(c.Source) != 0 {", New: "\tif b.Source.Compare(b.Source) != 0 {", Expect: "withdrawal-matches-own-path"},
 			{Name: "withdraw-sends-stored-path", File: "routingtable/adjRIBIn/adj_rib_in.go", Old: "\t\tpath, reject := a.exportFilterChain.Process(pfx, path)\n\t\tif reject {\n\t\t\tcontinue\n\t\t}\n\t\tfor _, client := range a.clientManager.Clients() {\n\t\t\tclient.RemovePath(pfx, path)", New: "\t\t_, reject := a.exportFilterChain.Process(pfx, path)\n\t\tif reject {\n\t\t\tcontinue\n\t\t}\n\t\tfor _, client := range a.clientManager.Clients() {\n\t\t\tclient.RemovePath(pfx, path)", Expect: "post-policy-paths-only"},
 			{Name: "replaced-path-withdrawn-after-bailout", File: "routingtable/adjRIBIn/adj_rib_in.go", Old: "\ta.removePathsFromClients(pfx, oldPaths)\n\n\t// Bail out if this path is considered ineligible\n\tp.HiddenReason = a.validatePath(p)\n\tif p.HiddenReason != route.HiddenReasonNone {\n\t\treturn nil\n\t}\n", New: "\t// Bail out if this path is considered ineligible\n\tp.HiddenReason = a.validatePath(p)\n\tif p.HiddenReason != route.HiddenReasonNone {\n\t\treturn nil\n\t}\n\ta.removePathsFromClients(pfx, oldPaths)\n", Expect: "replaced-paths-withdrawn"},
 		},
@@ -91,6 +93,9 @@ func processDef(f *core.Fn, e ast.Expr) *ast.CallExpr {
 
 func runC05(c *core.Ctx) {
 	p := c.P
+	// removing "what the session contributed" finds the path through the identity relation Path.Compare
+	identityOperandCoverage(c, "withdrawal-matches-own-path")
+	pathIDOpaque(c, "path-identifier-is-opaque")
 	if p.Pkg(adjIn) == nil {
 		c.Undecided("anchor", adjIn, token.NoPos, "package not found")
 		return
